@@ -392,8 +392,9 @@ def tab_in_literal(c):
 
 
 def literal_whitespace_changed(c):
-    sa = sorted(n.value for n in _walk(c["a"], ast.Constant) if isinstance(n.value, str))
-    sb = sorted(n.value for n in _walk(c["b"], ast.Constant) if isinstance(n.value, str))
+    as_text = lambda v: v if isinstance(v, str) else v.decode("latin-1")
+    sa = sorted(as_text(n.value) for n in _walk(c["a"], ast.Constant) if isinstance(n.value, (str, bytes)))
+    sb = sorted(as_text(n.value) for n in _walk(c["b"], ast.Constant) if isinstance(n.value, (str, bytes)))
     return sa != sb and [re.sub(r"\s+", "", x) for x in sa] == [re.sub(r"\s+", "", x) for x in sb]
 
 
@@ -469,6 +470,388 @@ def nested_loop_var_escapes(c):
             if isinstance(s, ast.Expr) and isinstance(s.value, ast.Call) and isinstance(s.value.func, ast.Attribute):
                 if any(_reads(s.value.func.value, v) for v in tv):
                     return True
+    return False
+
+
+# ---------------------------------------------------------------------------------------------- round 4 (bug hunt)
+
+
+def _cnt(text, pred):
+    return sum(1 for n in ast.walk(_p(text)) if pred(n))
+
+
+def _parents(tree):
+    par = {}
+    for n in ast.walk(tree):
+        for ch in ast.iter_child_nodes(n):
+            par[id(ch)] = n
+    return par
+
+
+def _nested_imports(text):
+    """(dump of import stmt, chain of ancestor type names) for imports that are not module-level statements"""
+    tree = _p(text)
+    par = _parents(tree)
+    out = []
+    for n in ast.walk(tree):
+        if isinstance(n, (ast.Import, ast.ImportFrom)):
+            chain, cur = [], par.get(id(n))
+            while cur is not None and not isinstance(cur, ast.Module):
+                chain.append(cur)
+                cur = par.get(id(cur))
+            if chain:
+                out.append((n, chain))
+    return out
+
+
+def _moved_imports(c):
+    top_b = {ast.dump(n) for n in _p(c["b"]).body if isinstance(n, (ast.Import, ast.ImportFrom))}
+    top_a = {ast.dump(n) for n in _p(c["a"]).body if isinstance(n, (ast.Import, ast.ImportFrom))}
+    return [(n, ch) for n, ch in _nested_imports(c["a"]) if ast.dump(n) in top_b - top_a]
+
+
+def import_moved_out_of_guard(c):
+    return any(any(isinstance(x, (ast.Try, ast.If, ast.While, ast.For, ast.With)) for x in ch) or
+               (isinstance(ch[0], (ast.FunctionDef, ast.AsyncFunctionDef)) and True and not _import_names(n) & _stored_in(ch[0], n))
+               for n, ch in _moved_imports(c) if not any(isinstance(x, ast.ClassDef) for x in ch))
+
+
+def _import_names(n):
+    return {(a.asname or a.name).split(".")[0] for a in n.names}
+
+
+def _stored_in(func, imp):
+    return {x.id for x in ast.walk(func) if isinstance(x, ast.Name) and isinstance(x.ctx, (ast.Store, ast.Del))}
+
+
+def import_moved_name_rebound_locally(c):
+    return any(isinstance(ch[0], (ast.FunctionDef, ast.AsyncFunctionDef)) and _import_names(n) & _stored_in(ch[0], n) for n, ch in _moved_imports(c))
+
+
+def import_moved_out_of_class(c):
+    return any(isinstance(ch[0], ast.ClassDef) for n, ch in _moved_imports(c))
+
+
+def _removed_import_names(c):
+    def bound(t):
+        return [nm for n in ast.walk(_p(t)) if isinstance(n, (ast.Import, ast.ImportFrom)) for nm in
+                [(a.asname or a.name) for a in n.names]]
+    ba, bb = bound(c["a"]), bound(c["b"])
+    return [n for n in set(ba) if bb.count(n) < ba.count(n)]
+
+
+def unused_import_removed(c):
+    """the removed import binds a name that is read nowhere: only executing the import mattered"""
+    loads = {n.id for n in ast.walk(_p(c["a"])) if isinstance(n, ast.Name) and isinstance(n.ctx, ast.Load)}
+    return any(n.split(".")[0] not in loads for n in _removed_import_names(c))
+
+
+def import_needed_by_del_or_augassign(c):
+    tree = _p(c["a"])
+    needed = {n.id for n in ast.walk(tree) if isinstance(n, ast.Name) and isinstance(n.ctx, ast.Del)} | {
+        n.target.id for n in ast.walk(tree) if isinstance(n, ast.AugAssign) and isinstance(n.target, ast.Name)}
+    return any(n.split(".")[0] in needed for n in _removed_import_names(c))
+
+
+def pointless_loop_drains_iterator(c):
+    def lazy(it):
+        return not isinstance(it, (ast.List, ast.Tuple, ast.Set, ast.Dict, ast.Constant)) and not (
+            isinstance(it, ast.Call) and isinstance(it.func, ast.Name) and it.func.id == "range")
+    return any(lazy(s.iter) for s in _removed_stmts(c["a"], c["b"], ast.For)) or any(
+        isinstance(s.value, (ast.ListComp, ast.SetComp, ast.GeneratorExp, ast.List, ast.Compare, ast.Starred))
+        and any(isinstance(n, ast.Name) for n in ast.walk(s.value)) for s in _removed_stmts(c["a"], c["b"], ast.Expr))
+
+
+def underscore_definition_deleted(c):
+    return any(getattr(s, "name", None) == "_" for s in _removed_stmts(c["a"], c["b"], ast.FunctionDef, ast.ClassDef))
+
+
+def pointless_user_callable(c):
+    """a call of a name the FILE defines (class without own __init__, function, parameter) was deleted"""
+    tree = _p(c["a"])
+    defined = {n.name for n in ast.walk(tree) if isinstance(n, (ast.FunctionDef, ast.ClassDef))} | {a.arg for a in ast.walk(tree) if isinstance(a, ast.arg)}
+    return any(isinstance(s.value, ast.Call) and isinstance(s.value.func, ast.Name) and s.value.func.id in defined
+               for s in _removed_stmts(c["a"], c["b"], ast.Expr))
+
+
+def _rebound_builtins(text):
+    tree = _p(text)
+    names = {n.name for n in ast.walk(tree) if isinstance(n, (ast.FunctionDef, ast.ClassDef))} | {
+        n.id for n in ast.walk(tree) if isinstance(n, ast.Name) and isinstance(n.ctx, ast.Store)}
+    return {n for n in names if hasattr(builtins, n)}
+
+
+def rebound_builtin_rewritten(c):
+    """the file rebinds a builtin name and the stage removed / evaluated calls of that name"""
+    rb = _rebound_builtins(c["a"])
+    calls = lambda t: [n.func.id for n in ast.walk(_p(t)) if isinstance(n, ast.Call) and isinstance(n.func, ast.Name)]
+    ca, cb = calls(c["a"]), calls(c["b"])
+    return any(cb.count(n) < ca.count(n) for n in rb)
+
+
+def _str_consts(t):
+    return sorted(repr(n.value) for n in ast.walk(_p(t)) if isinstance(n, ast.Constant) and isinstance(n.value, (str, bytes)))
+
+
+def literal_value_changed(c):
+    """the VALUE of a str/bytes literal differs although no rule is supposed to edit literals"""
+    try:
+        return _str_consts(c["a"]) != _str_consts(c["b"])
+    except SyntaxError:
+        return False
+
+
+def escape_made_raw(c):
+    return bool(re.search(r"\\(x[0-9a-fA-F]{2}|[0-7]{1,3}|\n)", c["a"])) and (c["b"].count('r"') + c["b"].count("r'") > c["a"].count('r"') + c["a"].count("r'"))
+
+
+def raw_prefix_inside_fstring(c):
+    return bool(re.search(r"""\bf['"]""", c["a"])) and c["b"].count("r\"") + c["b"].count("r'") > c["a"].count("r\"") + c["a"].count("r'")
+
+
+def last_yield_removed(c):
+    def gens(t):
+        return {f.name for f in ast.walk(_p(t)) if isinstance(f, (ast.FunctionDef, ast.AsyncFunctionDef))
+                and any(isinstance(n, (ast.Yield, ast.YieldFrom)) for n in ast.walk(f))}
+    return bool(gens(c["a"]) - gens(c["b"]))
+
+
+def indentation_not_four(c):
+    widths = {len(l) - len(l.lstrip(" ")) for l in c["a"].split("\n") if l.strip() and l.startswith(" ")}
+    return any(w % 4 for w in widths)
+
+
+def else_with_space_before_colon(c):
+    return bool(re.search(r"(?m)^\s*else\s+:", c["a"]))
+
+
+def return_into_global_branch(c):
+    """final assignments to a global/nonlocal name were replaced by returns"""
+    for f in _walk(c["a"], ast.FunctionDef, ast.AsyncFunctionDef):
+        if any(isinstance(n, (ast.Global, ast.Nonlocal)) for n in ast.walk(f)):
+            return _cnt(c["b"], lambda n: isinstance(n, ast.Return)) > _cnt(c["a"], lambda n: isinstance(n, ast.Return))
+    return False
+
+
+def with_introduced(c):
+    w = lambda t: _cnt(t, lambda n: isinstance(n, (ast.With, ast.AsyncWith)))
+    return w(c["b"]) > w(c["a"])
+
+
+def with_introduced_for_cursor(c):
+    return with_introduced(c) and ".cursor(" in c["a"]
+
+
+def exotic_line_separator(c):
+    return bool(re.search("[\x0b\x0c\x1c\x1d\x1e\x85\u2028\u2029]", c["a"]))
+
+
+def comprehension_merged(c):
+    k = lambda t: _cnt(t, lambda n: isinstance(n, (ast.ListComp, ast.SetComp, ast.GeneratorExp, ast.DictComp)))
+    return k(c["b"]) < k(c["a"])
+
+
+def class_body_statement_rewritten(c):
+    """a loop / compound statement that was a direct statement of a class body is gone"""
+    def direct(t):
+        return {ast.dump(s) for k in _walk(t, ast.ClassDef) for s in k.body if isinstance(s, (ast.For, ast.If, ast.Try, ast.With, ast.While))}
+    return bool(direct(c["a"]) - direct(c["b"]))
+
+
+def tuple_unpacking_dropped(c):
+    return any(isinstance(s.targets[0], (ast.Tuple, ast.List)) for s in _removed_stmts(c["a"], c["b"], ast.Assign))
+
+
+def del_target_renamed(c):
+    dels = lambda t: [n.id for n in ast.walk(_p(t)) if isinstance(n, ast.Name) and isinstance(n.ctx, ast.Del)]
+    return dels(c["a"]).count("_") < dels(c["b"]).count("_")
+
+
+def nonlocal_target_touched(c):
+    decl = {n for x in _walk(c["a"], ast.Nonlocal, ast.Global) for n in x.names}
+    stores = lambda t: [n.id for n in ast.walk(_p(t)) if isinstance(n, ast.Name) and isinstance(n.ctx, ast.Store)]
+    sa, sb = stores(c["a"]), stores(c["b"])
+    return any(sb.count(n) < sa.count(n) for n in decl)
+
+
+def lambda_replaced(c):
+    k = lambda t: _cnt(t, lambda n: isinstance(n, ast.Lambda))
+    return k(c["b"]) < k(c["a"])
+
+
+def map_filter_lambda_inlined(c):
+    k = lambda t: _cnt(t, lambda n: isinstance(n, ast.Call) and isinstance(n.func, ast.Name) and n.func.id in ("map", "filter"))
+    return k(c["b"]) < k(c["a"])
+
+
+def negated_comparison_rewritten(c):
+    k = lambda t: _cnt(t, lambda n: isinstance(n, ast.UnaryOp) and isinstance(n.op, ast.Not) and isinstance(n.operand, ast.Compare))
+    return k(c["b"]) < k(c["a"])
+
+
+def fstring_field_starts_with_brace(c):
+    """a replacement field whose expression now starts with '{' (set / dict display or comprehension)"""
+    return bool(re.search(r"""f['"][^'"]*\{\{""", c["b"])) or (
+        _cnt(c["a"], lambda n: isinstance(n, ast.JoinedStr)) > 0 and _safe_fail_parse(c["b"]))
+
+
+def _safe_fail_parse(t):
+    try:
+        ast.parse(t)
+        return False
+    except SyntaxError:
+        return True
+
+
+def async_for_rewritten(c):
+    k = lambda t: _cnt(t, lambda n: isinstance(n, ast.AsyncFor))
+    return k(c["b"]) < k(c["a"])
+
+
+def closed_form_in_operator_context(c):
+    """sum(...) that was an operand of a binary / unary operator or attribute was replaced by an unparenthesised closed form"""
+    tree = _p(c["a"])
+    par = _parents(tree)
+    for n in ast.walk(tree):
+        if isinstance(n, ast.Call) and isinstance(n.func, ast.Name) and n.func.id == "sum":
+            if isinstance(par.get(id(n)), (ast.BinOp, ast.UnaryOp, ast.Attribute, ast.Compare)):
+                return _cnt(c["b"], lambda m: isinstance(m, ast.Call) and isinstance(m.func, ast.Name) and m.func.id == "sum") < \
+                    _cnt(c["a"], lambda m: isinstance(m, ast.Call) and isinstance(m.func, ast.Name) and m.func.id == "sum")
+    return False
+
+
+def _moved_static(c):
+    def statics(text):
+        return {f.name: f for k in _walk(text, ast.ClassDef) for f in k.body if isinstance(f, (ast.FunctionDef, ast.AsyncFunctionDef))
+                and any(isinstance(d, ast.Name) and d.id == "staticmethod" for d in f.decorator_list)}
+    sa, sb = statics(c["a"]), statics(c["b"])
+    return [f for n, f in sa.items() if n not in sb]
+
+
+def static_moved_with_extra_decorator(c):
+    """accesses of a static method that carries a second decorator were rewritten to a module-level name (whether or
+    not the definition itself was moved)"""
+    names = {f.name for k in _walk(c["a"], ast.ClassDef) for f in k.body if isinstance(f, (ast.FunctionDef, ast.AsyncFunctionDef))
+             and len(f.decorator_list) > 1 and any(isinstance(d, ast.Name) and d.id == "staticmethod" for d in f.decorator_list)}
+    acc = lambda t: sum(1 for n in ast.walk(_p(t)) if isinstance(n, ast.Attribute) and n.attr in names)
+    return bool(names) and acc(c["b"]) < acc(c["a"])
+
+
+def static_moved_with_defaults(c):
+    return any(f.args.defaults or f.args.kw_defaults for f in _moved_static(c))
+
+
+def static_moved_with_private_name(c):
+    return any(re.search(r"\b__[A-Za-z0-9]+(?<!__)\b", ast.unparse(f)) for f in _moved_static(c))
+
+
+def static_moved_async(c):
+    return any(isinstance(f, ast.AsyncFunctionDef) for f in _moved_static(c))
+
+
+def static_moved_but_assigned(c):
+    names = {f.name for f in _moved_static(c)}
+    return any(isinstance(n, ast.Attribute) and isinstance(n.ctx, ast.Store) and n.attr in names for n in ast.walk(_p(c["a"])))
+
+
+def non_self_first_parameter_removed(c):
+    def methods(text):
+        return {(k.name, f.name): [x.arg for x in f.args.posonlyargs + f.args.args]
+                for k in _walk(text, ast.ClassDef) for f in k.body if isinstance(f, (ast.FunctionDef, ast.AsyncFunctionDef))}
+    ma, mb = methods(c["a"]), methods(c["b"])
+    return any(k in mb and args and args[0] not in ("self", "cls") and mb[k] == args[1:] for k, args in ma.items())
+
+
+def self_attr_call_to_cls(c):
+    k = lambda t: _cnt(t, lambda n: isinstance(n, ast.Attribute) and isinstance(n.value, ast.Name) and n.value.id == "self")
+    return k(c["b"]) < k(c["a"]) and not self_removed(c)
+
+
+def class_attr_assignment_moved_in(c):
+    def outer(t):
+        return sum(1 for s in _p(t).body if isinstance(s, ast.Assign) and isinstance(s.targets[0], ast.Attribute))
+    return outer(c["b"]) < outer(c["a"])
+
+
+def constant_abstracted_in_match(c):
+    return _cnt(c["a"], lambda n: isinstance(n, ast.Match)) > 0 and _new_upper_names(c)
+
+
+def _new_upper_names(c):
+    na, nb = set(_names(c["a"])), set(_names(c["b"]))
+    return bool({n for n in nb - na if n.isupper() or n.startswith("_") and n[1:].isupper()})
+
+
+def constant_inserted_before_docstring(c):
+    body = _p(c["a"]).body
+    has = bool(body) and (isinstance(body[0], ast.Expr) and isinstance(getattr(body[0], "value", None), ast.Constant) or
+                          any(isinstance(s, ast.ImportFrom) and s.module == "__future__" for s in body))
+    return has and _new_upper_names(c)
+
+
+def constant_nested_candidates(c):
+    """a repeated display that itself contains a repeated literal"""
+    return _new_upper_names(c) and any(isinstance(n, (ast.Tuple, ast.List)) and any(isinstance(e, ast.Constant) and isinstance(e.value, str) and len(e.value) > 10 for e in n.elts)
+                                       for n in ast.walk(_p(c["a"])))
+
+
+def var_n_introduced(c):
+    return bool({n for n in set(_names(c["b"])) - set(_names(c["a"])) if re.fullmatch(r"var_\d+", n)})
+
+
+def snapshot_wrapper_removed(c):
+    """list(...) / tuple(...) / sorted(...) around an iterable was dropped (snapshot / eager consumption lost)"""
+    k = lambda t: _cnt(t, lambda n: isinstance(n, ast.Call) and isinstance(n.func, ast.Name) and n.func.id in ("list", "tuple", "sorted"))
+    return k(c["b"]) < k(c["a"])
+
+
+def numpy_introduced(c):
+    return bool(re.search(r"\b(np|numpy)\.", c["b"])) and not re.search(r"\b(np|numpy)\b", c["a"])
+
+
+def pandas_accessor_introduced(c):
+    pat = r"\.(iat|at|itertuples|index)\b"
+    return len(re.findall(pat, c["b"])) > len(re.findall(pat, c["a"]))
+
+
+def invented_loop_variable_collides(c):
+    na, nb = _names(c["a"]), _names(c["b"])
+    return any(nb.count(n) > na.count(n) and na.count(n) > 0 and "_" in n for n in set(na))
+
+
+def star_name_bound_in_other_scope(c):
+    """a star import was narrowed / dropped and a name it provides is also bound inside some function (parameter, local,
+    comprehension variable) or LATER at module level -- not a builtin and not bound earlier at module level (that shape
+    is what the star import exists for)"""
+    ta = _p(c["a"])
+    if star_import_removed(c) or True:
+        stars = [i for i, s in enumerate(ta.body) if isinstance(s, ast.ImportFrom) and any(a.name == "*" for a in s.names)]
+        if not stars:
+            return False
+        import importlib
+        exported = set()
+        for i in stars:
+            try:
+                m = importlib.import_module(ta.body[i].module)
+                exported |= set(getattr(m, "__all__", [n for n in dir(m) if not n.startswith("_")]))
+            except Exception:  # noqa
+                pass
+        explicit_b = {a.asname or a.name for s in ast.walk(_p(c["b"])) if isinstance(s, ast.ImportFrom) for a in s.names}
+        used = {n.id for n in ast.walk(ta) if isinstance(n, ast.Name) and isinstance(n.ctx, ast.Load)}
+        lost = (used & exported) - explicit_b
+        if not lost:
+            return False
+        early = set()
+        for s in ta.body[:stars[0]]:
+            early |= {n.id for n in ast.walk(s) if isinstance(n, ast.Name) and isinstance(n.ctx, ast.Store)}
+        inner = {n.id for f in ast.walk(ta) if isinstance(f, (ast.FunctionDef, ast.Lambda, ast.ListComp, ast.GeneratorExp, ast.SetComp, ast.DictComp))
+                 for n in ast.walk(f) if isinstance(n, ast.Name) and isinstance(n.ctx, ast.Store)} | {
+            a.arg for a in ast.walk(ta) if isinstance(a, ast.arg)}
+        later = set()
+        for s in ta.body[stars[-1] + 1:]:
+            if not isinstance(s, (ast.FunctionDef, ast.ClassDef)):
+                later |= {n.id for n in ast.walk(s) if isinstance(n, ast.Name) and isinstance(n.ctx, ast.Store)}
+        return any(n in (inner | later) and not hasattr(builtins, n) and n not in early for n in lost)
     return False
 
 
